@@ -170,6 +170,10 @@ def install(eng, cfg=None):
         exe = cfg.get('execute')         # kv / relational back ends hook in here
         if kind == 'read':
             if s_.nrows is None:
+                if cfg.get('fail') == 'one' and cfg.get('fail_reads') and q.failed is None and eng.choose(st, 'failread', 2) == 1:
+                    # a SELECT / PRAGMA query that fails on its first step (I/O error, busy database): nothing was read, nothing is changed
+                    q.failed = ('read', s_.sql); q.log.append(('step', 'read', s_.sql, dict(s_.binds), 'FAILED'))
+                    return cfg.get('fail_read_code', SQLITE_BUSY)
                 n = None
                 if exe: n = exe(st, q, s_)            # fills s_.rows
                 if n is None:
